@@ -72,13 +72,52 @@ let handle kind a =
         | _ -> failwith "mates record") (split_on ';' a.(2)) in
       let on = function None -> "-1" | Some x -> dec_of_n x in
       let op = function None -> "0" | Some x -> dec_of_n x in
-      (match mates_roundtrip refs recs with
+      let links l = String.concat "," (List.map (fun (cf, d) ->
+        match d with
+        | Some d -> dec_of_n cf ^ ":" ^ dec_of_n d
+        | None -> dec_of_n cf) l) in
+      (match mates_rt refs recs with
        | MWriteErr -> Some "Err:InvalidInput"
        | MReadErr -> Some "ReadErr:InvalidData"
        | MOk out ->
-           Some (String.concat ";" (List.map (fun r ->
+           let cols = String.concat ";" (List.map (fun r ->
              let (((f, mr), mp), t) = mate_view r in
-             Printf.sprintf "%s,%s,%s,%s" (dec_of_n f) (on mr) (op mp) (dec_of_z t)) out)))
+             Printf.sprintf "%s,%s,%s,%s" (dec_of_n f) (on mr) (op mp) (dec_of_z t)) out) in
+           (match mates_links refs recs with
+            | None -> Some "Err:InvalidInput"
+            | Some (a, b) ->
+                (match mates_bytes refs recs with
+                 | None -> Some "Err:InvalidInput"
+                 | Some s ->
+                     Some (Printf.sprintf "%s L:%s M:%s B:%s/%s/%s/%s/%s" cols (links a) (links b)
+                             (hex_of_bytes s.b_mf) (hex_of_bytes s.b_ns) (hex_of_bytes s.b_np)
+                             (hex_of_bytes s.b_ts) (hex_of_bytes s.b_nf)))))
+  | "shdr" ->
+      (* a.(0) = records per slice, a.(1) = @SQ lengths, a.(2) = refs, a.(3) = records *)
+      let rps = nat_of_int (int_of_string a.(0)) in
+      let lns = List.map n_of_dec (split_on ',' a.(1)) in
+      let refs = List.map (fun r -> match split_on ':' r with
+          | [_; h] -> bytes_of_hex h | _ -> failwith "ref") (split_on ',' a.(2)) in
+      let refsq = List.combine lns refs in
+      let opt_n s = if s = "-1" then None else Some (n_of_dec s) in
+      let opt_pos s = if s = "0" then None else Some (n_of_dec s) in
+      let recs = List.map (fun r ->
+        match split_on '|' r with
+        | [_; rid; pos; cg; sq] ->
+            let seq = bytes_of_hex sq in
+            srec_of (opt_n rid) (opt_pos pos) (parse_cigar cg) seq (List.map (fun _ -> n_of_int 30) seq)
+        | _ -> failwith "shdr record") (split_on ';' a.(3)) in
+      (match shdr_rows refsq rps recs with
+       | SErr _ -> Some "Err:InvalidInput"
+       | SOk rows ->
+           Some (String.concat ";" (List.map (fun r ->
+             if r.rw_cont then
+               Printf.sprintf "C:%s,%s,%s,%s,%s" (dec_of_z r.rw_ref) (dec_of_z r.rw_start) (dec_of_z r.rw_span)
+                 (dec_of_n r.rw_nrec) (dec_of_n r.rw_counter)
+             else
+               Printf.sprintf "S:%s,%s,%s,%s,%s,%s,%s" (dec_of_z r.rw_ref) (dec_of_z r.rw_start) (dec_of_z r.rw_span)
+                 (dec_of_n r.rw_nrec) (dec_of_n r.rw_counter) (dec_of_z r.rw_embedded)
+                 (if r.rw_md5 then "m" else "z")) rows)))
   | _ -> None
 
 let () = run_driver handle
